@@ -185,7 +185,12 @@ CLAIMED.update({
             "bait Painted, in any Pretext order: content unchanged, the shown scaffolds are prefix1..prefixk at rank 1 numbered "
             "by non-increasing sequence length with ties in Pretext order, absent scaffolds unchanged at rank 3. " + PIPE,
             NOTE, "Coq proof end to end (1300 lines over the pipeline stages) + in-Coq correspondence of the pipeline + identity oracle", "DESIGN.md 6/C08, 13"),
-    "C09": ("Coq theorems: label_tag_spec (FalseDuplicate > Haplotig > Contaminant incl. Target mode > none; haplotype; rank 3), "
+    "C09": ("Coq theorems: C09_routing_end_to_end, END TO END through `remap` for all inputs and maps: every stored result with rows is "
+            "written, whole and contiguous, into a scaffold of the output assembly keyed by its tag if it has one, else by its haplotype, "
+            "else None (primary); the same for left-over scaffolds; conversely every scaffold of an output assembly carries that "
+            "assembly's key; C09_haplotig_bait_routed / C09_contaminant_bait_routed: in terms of the tags in the Pretext file (the tag and "
+            "haplotype of a result are what label_scaffold computed from its bait's and its Pretext scaffold's tags; no later stage changes "
+            "them). Ingredients: label_tag_spec (FalseDuplicate > Haplotig > Contaminant incl. Target mode > none; haplotype; rank 3), "
             "Target mode monotone, labelling fails only for Unloc in an unpainted scaffold, and routing: with the repaired "
             "fusion key every piece with rows ends as a contiguous block in the fused scaffold of its own (tag, haplotype, name), "
             "which goes to the assembly keyed by that tag, else haplotype, else primary -- never a curated assembly when tagged; "
@@ -214,7 +219,10 @@ CLAIMED.update({
             "haplotypes land in one tag-keyed assembly (found by the uniqueness proof, reproduced on /repo). " + PIPE,
             NOTE, "Coq proof (label invariant through the pipeline, sorting lemmas, fold invariants) + in-Coq correspondence + naming/CSV oracle (partial for multi-haplotype)",
             "DESIGN.md 6/C10, 13"),
-    "C11": ("Coq theorems: the canonical junction identifies the unordered pair of facing contig ends (with sides, 1-bp contigs "
+    "C11": ("Coq theorems: C11_breaks_joins, END TO END through `remap`: reported breaks = number of distinct input adjacencies (unordered "
+            "pairs of facing contig ends of consecutive contigs) occurring in no output scaffold, reported joins = number of distinct output "
+            "adjacencies occurring in no input scaffold; the set of input adjacencies is invariant under reversing (and renaming) an input "
+            "scaffold. Ingredients: the canonical junction identifies the unordered pair of facing contig ends (with sides, 1-bp contigs "
             "included); reading a junction from the other side gives the same canonical junction; the junction set of a scaffold "
             "equals that of its reverse; strand 0 is an error; list-based union/difference/intersection have their set meaning; "
             "cuts = output fragments - input contigs for every completed run (from the C01 invariant); the reported "
